@@ -22,6 +22,16 @@ def value(alphabet, min_size=0):
     return text_from(alphabet, min_size).filter(lambda s: not s.startswith(('"', "'", ":")))
 
 
+# In a condition every position has a fixed role, so a value there may be spelled
+# like a tag (in an action a leading colon makes it one: excluded above).
+TAGLIKE = [":is", ":contains", ":matches", ":notis", ":over", ":under", ":count", ":value", ":regex", ":copy", ":text", ":zone", ":", ":all"]
+
+
+def cvalue(alphabet, min_size=0):
+    """A value for a condition slot."""
+    return st.one_of(*([value(alphabet, min_size)] * 7 + [st.sampled_from(TAGLIKE)]))
+
+
 def header_name(alphabet):
     return value(alphabet, 1).filter(lambda s: not s.startswith("not") and s not in SPECIAL)
 
@@ -38,7 +48,7 @@ MATCH_NOT = MATCH + [":notis", ":notcontains", ":notmatches"]
 def condition(draw, alphabet, kinds=None, lists_ok=True):
     kinds = kinds or ["header", "header", "exists", "size", "envelope", "address", "body", "currentdate", "truefalse"]
     k = draw(st.sampled_from(kinds))
-    v = value(alphabet)
+    v = cvalue(alphabet)
     if k == "header":
         name = draw(str_or_list(header_name(alphabet)) if lists_ok else header_name(alphabet))
         val = draw(str_or_list(v) if lists_ok else v)
